@@ -392,6 +392,28 @@ func (t *wgTree) queries(r *rng, o wgOps, maxSeg, maxPaths int, absOnly bool, o2
 	return qs
 }
 
+// nontrivialResult: a Glob with at least one match or ErrBadPattern; a walk with at least two callback invocations or a
+// non-nil return; a ReadDir that lists at least one entry or fails with something else than "no such file"; helpers
+// with at least one positive answer or an error other than "no such file".  distinct_nontrivial counts the DISTINCT
+// (tree, file system kind, query) triples whose implementation result is non-trivial in this sense.
+func nontrivialResult(res string) bool {
+	f := strings.Fields(res)
+	if len(f) < 2 {
+		return false
+	}
+	switch f[0] {
+	case "G":
+		return f[1] != "nil"
+	case "W":
+		return strings.Contains(f[1], ";") || f[len(f)-1] != "nil"
+	case "R":
+		return (len(f) == 3 && f[1] != "") || (f[len(f)-1] != "nil" && f[len(f)-1] != "L2")
+	case "H":
+		return strings.Contains(res, "1/") || strings.Contains(res, "/L13") || strings.Contains(res, "/L20") || strings.Contains(res, "/L40")
+	}
+	return false
+}
+
 func queryKind(q string) string {
 	t := strings.Fields(q)
 	if t[1] == "W" {
@@ -414,7 +436,9 @@ func emitBatches(o *out, hdr string, ops []string, qs []string, eval func(q stri
 			res := eval(q)
 			rs = append(rs, res)
 			o.count("query:" + queryKind(q))
-			o.distinct[hdr+strings.Join(ops, "|")+q] = struct{}{}
+			if nontrivialResult(res) {
+				o.distinct[hdr+strings.Join(ops, "|")+q] = struct{}{}
+			}
 			rk := strings.Fields(res)
 			if len(rk) > 1 && rk[0] == "G" {
 				switch rk[1] {
@@ -585,7 +609,7 @@ func runWalkGlob(cfg config) {
 	if cfg.tier == "thorough" {
 		ntrees, hl, maxSeg, maxPaths = 120, 45, 3, 14
 	}
-	o.rule = fmt.Sprintf("%d trees built by random MemFS histories of %d calls (mkdir/open/write/remove/rename/link/symlink incl. dangling and looping links/chmod/chown/SetUser/SetUMask; every third tree administrator-only, the others with an unprivileged acting identity and unreadable directories), each queried on MemFS and - round robin - through RoFS, FailFS(OkFunc), BasePathFS (base path = a directory of the tree; absolute clean paths) and as the same directory/file tree on OrefaFS: ReadDir and Exists/DirExists/IsDir/IsEmpty on up to %d paths (existing entries, missing, relative, unclean), WalkDir from each of them with the always-nil callback and with fs.SkipDir / fs.SkipAll / a custom error returned at EVERY callback invocation index i <= #invocations, Glob of every pattern of <= %d segments over {a,b,*,?,[ab],[^a],\\a} absolute and relative, with and without a trailing separator, plus %d special patterns (malformed, '.', '..', doubled separators, class spanning a separator); compared with the extracted Coq model of vfs.go's WalkDir/Glob/ReadDir and vfs_aferoutils.go over the MemFS world model; distinct = distinct (tree, query)", ntrees, hl, maxPaths, maxSeg, len(wgSpecialPatterns))
+	o.rule = fmt.Sprintf("%d trees built by random MemFS histories of %d calls (mkdir/open/write/remove/rename/link/symlink incl. dangling and looping links/chmod/chown/SetUser/SetUMask; every third tree administrator-only, the others with an unprivileged acting identity and unreadable directories), each queried on MemFS and - round robin - through RoFS, FailFS(OkFunc), BasePathFS (base path = a directory of the tree; absolute clean paths) and as the same directory/file tree on OrefaFS: ReadDir and Exists/DirExists/IsDir/IsEmpty on up to %d paths (existing entries, missing, relative, unclean), WalkDir from each of them with the always-nil callback and with fs.SkipDir / fs.SkipAll / a custom error returned at EVERY callback invocation index i <= #invocations, Glob of every pattern of <= %d segments over {a,b,*,?,[ab],[^a],\\a} absolute and relative, with and without a trailing separator, plus %d special patterns (malformed, '.', '..', doubled separators, class spanning a separator); compared with the extracted Coq model of vfs.go's WalkDir/Glob/ReadDir and vfs_aferoutils.go over the MemFS world model; distinct_nontrivial = distinct (tree, file system, query) whose result is non-trivial: a Glob with a match or ErrBadPattern, a walk with >= 2 callback invocations or a non-nil return, a ReadDir listing an entry or failing otherwise than ENOENT, a helper answering true or failing otherwise than ENOENT", ntrees, hl, maxPaths, maxSeg, len(wgSpecialPatterns))
 	r := &rng{s: cfg.seed*15485863 + 11}
 	kinds := []string{"rofs", "failfs", "basepathfs", "orefafs"}
 	nq := 0
